@@ -24,6 +24,20 @@ A callback that raises is a failure of "every reported event appends exactly one
 cases are compared with the handler-level model (YLog.hrun: events carry the address as spelled,
 every access goes through [lower]).
 
+The callbacks are made the way the agent makes them: a real BGPPeering is built from the configuration
+(peeraddr = CONF.bgp.running_config['remote_addr'], as agent.prepare_twisted_service does), `peer` is the
+BGP protocol object that factory builds, on_connection_failed gets factory.peer_addr -- not the check's
+copy of the string.  The configured text also ranges over the non-canonical forms of an IPv6 address
+(zero groups written out, leading zeros, `::` elsewhere, IPv4-mapped/-compatible in dotted and hex
+notation): whatever the session layer does to the text must agree with the key init() registers.
+
+NON-ASCII TEXT / LOCALE.  Two payloads contain text outside ASCII (a localised OS error as handed to
+on_connection_failed, descriptions, a non-ASCII key); they are part of the random histories.  A handful
+of histories with them run in a CHILD PROCESS whose default text encoding is ASCII (LC_ALL=C,
+PYTHONUTF8=0, PYTHONCOERCECLOCALE=0; this process itself runs in UTF-8 mode), including a stop /
+change of locale / start between UTF-8 and ASCII in both directions.  The check's own reading and
+writing of the files is done on octets, so a cut inside a multi-octet character is just a torn line.
+
 RECORD-SIZE DIMENSION.  A payload id is an index into PAYLOADS or ['sz', L]: a payload built at the
 moment of the call so that the record line (newline included) has exactly L octets.  L ranges from
 the smallest possible record (47 octets) over 100, 4000, every power of two from 512 to 65536 +-1
@@ -65,6 +79,8 @@ TRUSTED = [
     'in creation order',
     'classification of a line by the check (json.loads of the stdlib) = what get_last_seq_and_file sees',
     'the text start-up parses is observed by replacing the names json and eval in the handler module by recorders',
+    'callbacks are made with the protocol object of a real BGPPeering built from the configuration (Twisted stub); '
+    'the default text encoding is the one of the check process (UTF-8 mode) except in the locale child (ASCII)',
 ]
 ASSUMPTIONS = [
     'json: a line written by write_msg is valid JSON iff it is one complete record (validated at every octet '
@@ -1358,6 +1374,9 @@ def run(ctx):
                     'fixed / changing per event / never the configured one x thresholds {never, 1, 300} x histories '
                     '(all callbacks, restarts, crashes, a 5000-octet record), the random histories under an '
                     'upper-case address, 5 pairs of peers in one handler; '
+                    '10 more configured texts of IPv6 addresses in non-canonical form, callbacks through a real '
+                    'BGPPeering/protocol object; NON-ASCII payloads in the pool, and 6 (thorough 15) histories with '
+                    'them in a child process under LC_ALL=C PYTHONUTF8=0 incl. locale changes across restarts; '
                     'non-trivial = at least two lines written and audited, or a failing audit; '
                     'distinct by (threshold, history, offset)',
             'samples': samples, 'mismatches': mism, 'violations': violations, 'extra': stats}
